@@ -20,12 +20,14 @@ Inductive ctl (S R : Type) : Type :=
 | Brk (s : S)       (* break out of the innermost loop *)
 | Ret (r : R)       (* return *)
 | Pnc               (* a Go panic (explicit, index out of range, division by zero) *)
-| Fuel.             (* the model's loop fuel ran out: not a behaviour of the program *)
+| Fuel              (* the model's loop fuel ran out: not a behaviour of the program *)
+| Cnt (s : S).      (* continue: on to the post statement / the next round of the innermost loop *)
 Arguments Next {S R} s.
 Arguments Brk {S R} s.
 Arguments Ret {S R} r.
 Arguments Pnc {S R}.
 Arguments Fuel {S R}.
+Arguments Cnt {S R} s.
 
 (* sequencing: continue with the locals after a statement that may break / return / panic *)
 Definition seq {S R} (m : ctl S R) (k : S -> ctl S R) : ctl S R :=
@@ -35,7 +37,11 @@ Definition seq {S R} (m : ctl S R) (k : S -> ctl S R) : ctl S R :=
   | Ret r => Ret r
   | Pnc => Pnc
   | Fuel => Fuel
+  | Cnt s => Cnt s
   end.
+
+(* the body of a loop with a post statement: `continue` falls through to the post statement *)
+Definition catch_cnt {S R} (m : ctl S R) : ctl S R := match m with Cnt s => Next s | x => x end.
 
 (* for { body }: run the body until it breaks (then fall through), returns or panics *)
 Fixpoint loop {S R} (fuel : nat) (body : S -> ctl S R) (s : S) : ctl S R :=
@@ -48,6 +54,7 @@ Fixpoint loop {S R} (fuel : nat) (body : S -> ctl S R) (s : S) : ctl S R :=
       | Ret r => Ret r
       | Pnc => Pnc
       | Fuel => Fuel
+      | Cnt s' => loop k body s'
       end
   end.
 
